@@ -15,10 +15,9 @@ import json
 import os
 import re
 import shutil
-import tempfile
 import time
 
-from vf import core, tlaval, tlc
+from vf import tlaval, tlc
 from vf import table as vtable
 
 # ----------------------------------------------------------------------------- concretisation tables
